@@ -154,7 +154,11 @@ func extractScanTable(p *Program) (*scanTable, error) {
 			wordSeen := false
 			for f := range view.FactsAt(s.b) {
 				bo, ok := f.v.(*ssa.BinOp)
-				if !ok || bo.Op != token.EQL || f.k != factTrue {
+				if !ok {
+					continue
+				}
+				// `x == k` known true, or `x != k` known false (early exit on the other case)
+				if !(bo.Op == token.EQL && f.k == factTrue) && !(bo.Op == token.NEQ && f.k == factFalse) {
 					continue
 				}
 				c, ok := bo.Y.(*ssa.Const)
